@@ -192,7 +192,7 @@ def run_grad(ctx) -> RuleResult:
             it = _txt(gen.iter)
             filtered = bool(gen.ifs)
             elt = comp.elt
-        elif isinstance(comp, ast.List) and not comp.elts and isinstance(raw0, ast.Name):
+        elif isinstance(comp, ast.List) and isinstance(raw0, ast.Name) and (not comp.elts or last.muts.get(raw0.id)):
             # accumulate form:  polys = []; for name in poly.names: polys.append(derivative(poly, name)[None])
             appended = [call.args[0] for target, call in last.muts.get(raw0.id, ())
                         if isinstance(target, ast.Attribute) and target.attr == "append" and isinstance(call, ast.Call) and call.args]
@@ -273,8 +273,8 @@ def run_alignfn(ctx) -> RuleResult:
                 continue
             lst = value.args[0]
             verdict = _ordered_images(ctx, module, lst, vararg)
-            if verdict is None and isinstance(lst, (ast.List,)) and not lst.elts and isinstance(raw, ast.Call) and raw.args \
-                    and isinstance(raw.args[0], ast.Name):
+            if verdict is None and isinstance(lst, (ast.List,)) and isinstance(raw, ast.Call) and raw.args \
+                    and isinstance(raw.args[0], ast.Name) and (not lst.elts or last.muts.get(raw.args[0].id)):
                 # accumulate form:  out = []; for poly in <ordered>: out.append(f(poly))
                 records = last.muts.get(raw.args[0].id, ())
                 appended = [rec for rec in records if isinstance(rec[1], ast.Call) and isinstance(rec[1].func, ast.Attribute)
